@@ -218,9 +218,8 @@ impl Fmt for PqFmt {
         } else {
             match post {
                 Post::Drop => drop(w),
-                Post::IntoInner => {
-                    let _ = w.into_inner();
-                }
+                // the caller finishes the file although a write / flush failed: that must not be reported as a success
+                Post::IntoInner => out.finish_ok_after_error = w.into_inner().is_ok(),
             }
         }
         out
@@ -280,18 +279,20 @@ impl Fmt for PqAsyncFmt {
             };
             for (i, b) in wl.batches.iter().enumerate() {
                 if let Err(e) = w.write(b).await {
-                    // the caller stops at the first error; `into_inner` hands the sink back without flushing
+                    // the caller stops writing at the first error; half of the time it still closes the file
+                    let mut out = WOut::fail("write", e);
                     if post == Post::IntoInner {
-                        let _ = w.into_inner();
+                        out.finish_ok_after_error = w.close().await.is_ok();
                     }
-                    return WOut::fail("write", e);
+                    return out;
                 }
                 if flush_after.contains(&i) {
                     if let Err(e) = w.flush().await {
+                        let mut out = WOut::fail("flush", e);
                         if post == Post::IntoInner {
-                            let _ = w.into_inner();
+                            out.finish_ok_after_error = w.close().await.is_ok();
                         }
-                        return WOut::fail("flush", e);
+                        return out;
                     }
                 }
             }
